@@ -9,3 +9,4 @@ open PdModel.Tso PdModel.Spec
 #print axioms stored_window_counterexample_errAfter
 #print axioms tso_structure_facts
 #print axioms C02.check_iff
+#print axioms sync_above_other_windows
